@@ -43,6 +43,13 @@ def handle (op : String) (args : List String) (impl : String) : Option (String Ã
              else if attrVal i "Size" â‰  some (natToDec (Keys.bitLen (beNat pb)) ++ strBytes " bits") then "FAILS ssh_dsa_blob: the size shown is not the bit length of the prime in the blob"
              else "holds"
            | _, _ => "FAILS ssh_dsa_blob: a well-formed ssh-dss blob with a 1024-bit prime is not described")
+        | ["ec", cid, cname] =>
+          (match parsed with
+           | some i =>
+             if attrVal i "Type" â‰  some (strBytes ("ecdsa-sha2-" ++ cid)) then "FAILS ssh_ecdsa_blob: key type label is not what the blob stores"
+             else if ((attrVal i "Curve").map (isInfix (strBytes cname))).getD false then "holds"
+             else "FAILS ssh_ecdsa_blob: the curve shown is not the curve of the key"
+           | none => "FAILS ssh_ecdsa_blob: a well-formed ECDSA blob is not described")
         | ["ed"] =>
           (match parsed with
            | some i => if attrVal i "Type" = some (strBytes "ssh-ed25519") âˆ§ ((attrVal i "Curve").map (isInfix (strBytes "Ed25519"))).getD false then "holds"
